@@ -39,7 +39,9 @@ impl Cx {
 }
 
 pub fn runner(seed: [u8; 32]) -> TestRunner {
-    let cfg = Config { failure_persistence: None, ..Config::default() };
+    // (one runner draws a whole stream of cases, so the reject counters of proptest, meant for one test case, would add
+    // up over millions of draws: the few filtering strategies left reject a bounded fraction each)
+    let cfg = Config { failure_persistence: None, max_local_rejects: u32::MAX / 2, max_global_rejects: u32::MAX / 2, ..Config::default() };
     TestRunner::new_with_rng(cfg, TestRng::from_seed(RngAlgorithm::ChaCha, &seed))
 }
 
@@ -288,7 +290,14 @@ pub fn parallel(cx: &Cx, f: &(dyn Fn(usize, &mut Acc) + Sync)) -> Acc {
                     let mut acc = Acc::new();
                     match guarded(|| f(shard, &mut acc)) {
                         Ok(()) => {}
-                        Err(p) => acc.violation(format!("harness panic outside a case: {p}"), json!({"harness_panic": p})),
+                        // a panic that comes out of the library's own code is a finding even outside a generated case; one
+                        // that comes out of the harness (a generator giving up, a bug of the check) says nothing about
+                        // the tree under test: infrastructure, exit 2
+                        Err(p) if p.contains("/desert_core/") || p.contains("/desert_macro/") || p.contains("/desert/src/") => acc.violation(format!("panic outside a generated case: {p}"), json!({"harness_panic": p})),
+                        Err(p) => {
+                            eprintln!("harness failure outside a case (infrastructure, not a finding): {p}");
+                            std::process::exit(2);
+                        }
                     }
                     acc
                 })
